@@ -1,5 +1,6 @@
 import FxVerif.Proofs.C03View
 import FxVerif.Proofs.C03Prog
+import FxVerif.Proofs.C03Refine
 
 /-!
 # C03 — the executed event is field-for-field the event the quorum voted for
@@ -917,6 +918,102 @@ example : flowResolves [.eval ⟨"k.credit(ctx, claim.BridgerAddress)", [.read "
                     TargetIbc := [], BridgerAddress := bech, ChainName := [] }).handlerView = false := by decide +kernel
 /-- … and an unrecognised statement or a jump out of the program is not `flowModelled` -/
 example : flowModelled [.unknown "switch"] = false ∧ flowModelled [.jmp 5] = false ∧ flowModelled [] = false := by decide
+
+/-! ## the claim as `types.ExternalClaim`: every use of the interface value is accounted for (round 4)
+
+Before a handler sees a claim of a concrete type, the claim travels through `Claim`, `claimLogicCheck`, `Attest`,
+`TryAttestation`, `processAttestation`, `AttestationHandler`, the pending store and the iterators as a `types.ExternalClaim`.
+`interfaceUses` (REGENERATED: a forward data-flow over the variables of that static type in every function of
+x/crosschain/keeper, re-bindings and type assertions included) lists every use. -/
+
+/-- every use is one the property can live with: a getter of a field every hash covers, the hash, the type, a type switch
+(from where the typed scans follow the claim), a hand-over to a function that is itself scanned or that stores the claim
+unchanged; the relayer's address only in `MsgServer.Claim` -/
+theorem interface_uses_classified : interfaceUses.all allowedInterfaceUse = true := by decide
+
+/-- every function a claim is handed on to (`followedCallees`) really is in the table — the scan saw its body -/
+theorem interface_callees_scanned :
+    followedCalleeTable.all (fun p =>
+      !(interfaceUses.any fun u => u.2.1 == "pass" && u.2.2 == p.2) || interfaceUses.any fun w => w.1 == p.1) = true := by decide
+
+/-- the field getters among the allowed interface methods are the ones `interface_reads_hashed` shows to be hashed by every
+claim type, and the table is not empty because the translator lost track -/
+theorem interface_getters_are_hashed_fields :
+    interfaceFieldGetters.all (fun g => externalClaimReads.contains g.2) = true
+    ∧ interfaceUses.any (fun u => u == ("Attest", "call", "ClaimHash")) = true
+    ∧ interfaceUses.any (fun u => u == ("TryAttestation", "pass", "processAttestation#1")) = true := by decide
+
+/-- a use the allow-list rejects: reading the relayer's address, or the claim's own chain name, where the event is executed -/
+example : allowedInterfaceUse ("TryAttestation", "call", "GetClaimer") = false
+    ∧ allowedInterfaceUse ("AttestationHandler", "call", "GetChainName") = false
+    ∧ allowedInterfaceUse ("TryAttestation", "pass", "rewardRelayer#1") = false := by decide
+
+/-! ## refinement: this attestation model and the C01 model take the same steps (round 4)
+
+`Model/C01.lean` is the attestation / quorum model of C01 and C02 (claims as hash ids; the guards of `Attest` and
+`TryAttestation` enter through the regenerated `Gen.C01` flags: contiguity check, `!att.Observed`, next-nonce guard,
+`66 * total / 100`, the comparison `LT`, …).  `Proofs/C03Refine.lean` `Corr s t` says a state of this model and a C01 state
+describe one store.  One accepted vote — and therefore any sequence of accepted votes — takes corresponding states to
+corresponding states: the two hand-written models agree on which attestation a vote lands in, on its vote list, on whether
+`TryAttestation` is called, on its verdict, and on what an observation writes. -/
+
+open FxVerif.Proofs.C03Refine in
+/-- the regenerated tables have the shape the refinement is stated for: one `TryAttestation` call, handed the voted
+attestation and the voter's claim; the attestation looked up under the voter's own key, else new -/
+theorem attest_tables_shape :
+    attestTrySites.map (fun t => (t.att, t.claim)) = [(.voted, .voter)] ∧ attestLookup = [.ownKey, .fresh] := by decide
+
+open FxVerif.Proofs.C03Refine in
+/-- **one vote**: from corresponding states, a vote that passes `claimLogicCheck` and the contiguity check (handler not
+panicking, event nonce within `MaxKeepEventSize` so that nothing is pruned) is accepted, and the resulting states correspond:
+`vote` (this model, over the regenerated call structure) refines `C01.attest` (over the regenerated guards) -/
+theorem vote_refines_C01 (key : AnyClaim → Nat) (le : Nat → Nat → Bool) {s : AState Nat} {t : FxVerif.Model.C01.State}
+    (hc : Corr s t) (o : Nat) (c : AnyClaim) (hl : logicCheck s c = true) (hcont : c.nonce = lastNonceOf s o + 1)
+    (hkeep : c.nonce ≤ FxVerif.Gen.C01.maxKeepEventSize) :
+    (vote key le s o c false).2 = .ok
+    ∧ Corr (vote key le s o c false).1 (FxVerif.Model.C01.attest t o c.nonce (key c) (kindOf c)) := by
+  have := vote_refines_attest key le attestTrySites attest_tables_shape.1 hc o c hl hcont hkeep
+  simpa only [vote, attest_tables_shape.2] using this
+
+open FxVerif.Proofs.C03Refine in
+/-- every vote of the list is accepted when its turn comes -/
+def Accepted (key : AnyClaim → Nat) (le : Nat → Nat → Bool) : AState Nat → List (Nat × AnyClaim) → Prop
+  | _, [] => True
+  | s, (o, c) :: r =>
+    logicCheck s c = true ∧ c.nonce = lastNonceOf s o + 1 ∧ c.nonce ≤ FxVerif.Gen.C01.maxKeepEventSize
+    ∧ Accepted key le (vote key le s o c false).1 r
+
+open FxVerif.Proofs.C03Refine in
+/-- **any sequence of accepted votes** (any oracles, any claims of any types, any interleaving of event nonces and of
+conflicting claims for one nonce): the two models stay in corresponding states -/
+theorem votes_refine_C01 (key : AnyClaim → Nat) (le : Nat → Nat → Bool) :
+    ∀ (vs : List (Nat × AnyClaim)) (s : AState Nat) (t : FxVerif.Model.C01.State), Corr s t → Accepted key le s vs →
+      Corr (vs.foldl (fun s v => (vote key le s v.1 v.2 false).1) s)
+           (vs.foldl (fun t v => FxVerif.Model.C01.attest t v.1 v.2.nonce (key v.2) (kindOf v.2)) t)
+  | [], _, _, hc, _ => hc
+  | (o, c) :: r, s, t, hc, ha => by
+    obtain ⟨hl, hcont, hkeep, hr⟩ := ha
+    simp only [List.foldl_cons]
+    exact votes_refine_C01 key le r _ _ (vote_refines_C01 key le hc o c hl hcont hkeep).2 hr
+
+open FxVerif.Proofs.C03Refine in
+/-- the empty stores correspond -/
+theorem corr_init : Corr ({} : AState Nat) (FxVerif.Model.C01.init {}) :=
+  { atts := fun _ _ => rfl, lastObserved := rfl, lastNonce := fun _ => rfl, powers := fun _ => rfl, total := rfl }
+
+open FxVerif.Proofs.C03Refine in
+/-- the verdict of the vote loop of `TryAttestation` is the same in both models, for every vote list -/
+theorem tally_agrees_with_C01 {s : AState Nat} {t : FxVerif.Model.C01.State} (hc : Corr s t) (votes : List Nat) :
+    crosses s votes = FxVerif.Model.C01.tally t.oracles (FxVerif.Model.C01.required t.lastTotalPower) votes 0 :=
+  crosses_eq_tally hc votes 0
+
+/-- non-vacuity: from the empty stores two oracles voting for conflicting bridge calls of event nonce 1 are accepted in
+turn (the second lands in its own attestation) … -/
+example : Accepted (fun c => c.path.length) (fun _ _ => true) {} [(0, .bc wCall), (1, .bc wCall')] :=
+  ⟨by decide +kernel, by decide +kernel, by decide, by decide +kernel, by decide +kernel, by decide, trivial⟩
+/-- … while a vote that skips ahead is not (`Accepted` is a real restriction) -/
+example : ¬Accepted (fun c => c.path.length) (fun _ _ => true) {} [(0, .bc { wCall with EventNonce := 5 })] :=
+  fun h => absurd h.2.1 (by decide +kernel)
 
 /-! ## the store keys (round 3): `GetAttestationKey` / `GetPendingExecuteClaimKey` byte layouts, regenerated from key.go
 
